@@ -426,8 +426,7 @@ def main(tier, seed):
                        "PRNG draws are key-determined arbitrary reals"]
     for C in CASES:
         c = C()
-        if tier == "quick":
-            c.B_list = (2,) if C in (SAC, TD3LAP, DDQNPER) else (2, 3)
+        c.B_list = (2,) if C in (SAC, TD3LAP, DDQNPER) else (2, 3)  # thorough differs by more mode-C seeds, larger timeouts and the cvc5 cross-check
         run_case(rep, sess, c, tier, seed)
     _extra_cases(rep, sess, tier, seed)
     if tier == "thorough":
@@ -729,5 +728,5 @@ EXTRA = [TD7Critic, MRQ, SALEEmbedding, EncoderLoss, EncoderLossRaw]
 def _extra_cases(rep, sess, tier, seed):
     for C in EXTRA:
         c = C()
-        c.B_list = (2,) if tier == "quick" else (2, 3)
+        c.B_list = (2,)
         run_case(rep, sess, c, tier, seed)
